@@ -940,6 +940,42 @@ pub fn restricted_scope_duplicates(nm: &Names) -> Vec<F> {
     out
 }
 
+/// Two parenthesised groups in ONE formula that consist of the same tokens in the same order but are grouped differently
+/// inside: `((l0 o1 l1) o2 l2) g (l0 o1 (l1 o2 l2))`, `(u (l0 o l1)) g ((u l0) o l1)`, both orders. Whatever identifies a group by
+/// its flattened tokens (a cache key, a printed form without parentheses) confuses them. Texts in user syntax over three leaf names.
+pub fn reparenthesised_texts(l: [&str; 3]) -> Vec<String> {
+    let unary = ["~", "EX", "AX", "EF", "AF", "EG", "AG"];
+    let binary = ["&", "|", "^", "=>", "<=>", "EU", "AU", "EW", "AW"];
+    let mut out = vec![];
+    for o1 in binary {
+        for o2 in binary {
+            let t1 = format!("(({} {o1} {}) {o2} {})", l[0], l[1], l[2]);
+            let t2 = format!("({} {o1} ({} {o2} {}))", l[0], l[1], l[2]);
+            for g in ["|", "&"] {
+                out.push(format!("{t1} {g} {t2}"));
+                out.push(format!("{t2} {g} {t1}"));
+            }
+        }
+    }
+    for u in unary {
+        for o in binary {
+            let u1 = format!("({u} ({} {o} {}))", l[0], l[1]);
+            let u2 = format!("(({u} {}) {o} {})", l[0], l[1]);
+            out.push(format!("{u1} | {u2}"));
+            out.push(format!("{u2} & {u1}"));
+        }
+    }
+    for q in ["!", "3", "V"] {
+        for o in ["&", "|", "EU", "AW"] {
+            let q1 = format!("({q}{{x}}: ({{x}} {o} {}))", l[1]);
+            let q2 = format!("(({q}{{x}}: {{x}}) {o} {})", l[1]);
+            out.push(format!("{q1} | {q2}"));
+            out.push(format!("{q2} & {q1}"));
+        }
+    }
+    out
+}
+
 /// Wild-card propositions counted across scopes: %p% several times inside the scope of a variable with a restricted domain
 /// (within a duplicated sub-formula that does not mention the variable), and one to three more times outside it, in both orders.
 /// Texts (user syntax with %p%, %d%, proposition a); bookkeeping of how often a context set is still needed must not depend on scopes.
